@@ -24,6 +24,47 @@ from ..evidence import finish
 FEATURES = ["neg", "arith", "str", "recursion", "mutual", "disj", "multihead", "facts", "nullary", "cmp", "bits"]
 EXTRA = {"i": [3], "s": ["ab"]}          # values outside the EDB domain used for absent tuples
 
+def witness_programs(rng, k, tag):
+    """Programs in which the choice of the witnesses matters: several body instantiations derive the same head tuple and
+    the constraints / negations (over existential variables) rule some of them out - an explanation built from a
+    wrong witness is an invalid tree.  Same JSON format as vf/gen.py; the EDBs are a seeded list of dense inputs."""
+    V, N, S = gen.V, gen.N, gen.S
+    out = []
+    for n in range(k):
+        c = lambda: N(rng.choice([0, 1, 2]))
+        op = lambda: rng.choice(["NE", "GE", "LE", "LT", "GT", "NE"])
+        atom = lambda r, *a: {"k": "atom", "rel": r, "args": list(a)}
+        cmp_ = lambda o, l, r: {"k": "cmp", "op": o, "l": l, "r": r}
+        rels = [{"name": "in0", "arity": 2, "types": ["i", "i"], "input": True, "output": False, "eqrel": False},
+                {"name": "in1", "arity": 1, "types": ["s"], "input": True, "output": False, "eqrel": False},
+                {"name": "r0", "arity": 1, "types": ["i"], "input": False, "output": True, "eqrel": False},
+                {"name": "r1", "arity": 2, "types": ["i", "i"], "input": False, "output": True, "eqrel": False},
+                {"name": "r2", "arity": 2, "types": ["s", "s"], "input": False, "output": True, "eqrel": False}]
+        x, y, z, u = V("x"), V("y"), V("z"), V("u")
+        clauses = [
+            {"head": {"rel": "r0", "args": [x]}, "body": [atom("in0", x, y), cmp_(op(), y, c()), cmp_(op(), y, x)]},
+            {"head": {"rel": "r0", "args": [gen.F("ADD", x, N(1))]},
+             "body": [atom("in0", x, y), atom("in0", y, z), cmp_("NE", z, x), cmp_(op(), gen.F("ADD", y, z), c())]},
+            {"head": {"rel": "r1", "args": [x, z]},
+             "body": [atom("r0", x), atom("in0", y, z), cmp_(op(), y, x), {"k": "neg", "rel": "in0", "args": [z, y]},
+                      cmp_(op(), gen.F("MUL", y, N(2)), z)]},
+            {"head": {"rel": "r1", "args": [x, z]},
+             "body": [atom("r1", x, y), atom("in0", u, z), atom("r1", u, y), cmp_("NE", z, x), cmp_(op(), u, y)]},
+            {"head": {"rel": "r2", "args": [V("s"), V("t")]},
+             "body": [atom("in1", V("s")), atom("in1", V("t")), cmp_(rng.choice(["SLT", "NE", "SGE"]), V("s"), V("t"))]}]
+        dom = copy.deepcopy(gen.DOM)
+        tup = [[a, b] for a in dom["i"] for b in dom["i"]]
+        edbs = [{"in0": tup, "in1": [[v] for v in dom["s"]]}]
+        for _ in range(7):
+            dens = rng.choice([0.5, 0.7, 0.85])
+            edbs.append({"in0": [t for t in tup if rng.random() < dens], "in1": [[v] for v in dom["s"] if rng.random() < 0.8]})
+        P = {"id": "%s_w%d" % (tag, n), "types": [], "rels": rels, "clauses": clauses, "dom": dom,
+             "strata": [["in0"], ["in1"], ["r0"], ["r1"], ["r2"]], "edbs": {"mode": "list", "list": edbs},
+             "hidden": [], "features": ["witness", "recursion", "neg", "cmp-i", "cmp-s"]}
+        P["src_clauses"] = P["clauses"]
+        out.append(P)
+    return out
+
 def reltypes(P):
     return {r["name"]: list(r["types"]) for r in P["rels"]}
 
@@ -73,10 +114,13 @@ def run(tier, replay=None):
     quick = tier == "quick"
     rng = random.Random(seed() * 7919 + 19)
     n = 14 if quick else 90
-    n_compiled = 2 if quick else 8
+    n_compiled = int(os.environ.get("VERIF_C19_COMPILED", 2 if quick else 8))     # scratch experiments may set 0
     edb_per_prog = 3 if quick else 8
     cap_present = 30 if quick else 150
-    Ps = gen.programs(seed() * 1000 + 19, n, features=FEATURES, eqrel=True, n_idb=(2, 4))
+    # the EDB space is enumerated exhaustively only when small: this property is about the proofs, C01 is about all EDBs
+    Ps = gen.programs(seed() * 1000 + 19, n, features=FEATURES, eqrel=True, n_idb=(2, 4),
+                      max_edbs=(32 if quick else 512), edb_sample=(12 if quick else 24))
+    Ps += witness_programs(random.Random(seed() * 4409 + 19), 3 if quick else 12, "s%d" % (seed() * 1000 + 19))
     cases = evalcore.tlc_models(Ps, wd, res)
     log("C19: models %.0fs" % (time.time() - res.t0))
     kf = known.load()
@@ -167,6 +211,12 @@ def run(tier, replay=None):
     for j, (d, cmd, answers, o) in zip(jobs, outs):
         i = j["i"]; P = Ps[i]; rt = reltypes(P)
         if evalcore.known_crash(res, "C19", o.stderr):
+            continue
+        if o.kind != "ok":
+            res.violations.append(("[%s] the explain session did not end normally (%s, rc=%s) after answering %d of %d questions "
+                                   "(a crash / hang here is what a circular justification looks like): %s  program=%s"
+                                   % (j["mode"], o.kind, o.rc, len(answers), len(j["qs"]), o.stderr[-300:], P["id"]),
+                                   replay_file(d, j, cmd, {"desc": "session " + o.kind, "answers": len(answers)})))
             continue
         diff = evalcore.compare(P, j["case"], o)
         runs += 1
